@@ -47,6 +47,12 @@ var solvers = []solverSpec{
 	{"z3-new/nombqi", func(f string, t int) []string {
 		return []string{"z3-new", fmt.Sprintf("-T:%d", t), "smt.mbqi=false", "smt.random_seed=3", f}
 	}, ""},
+	{"z3-new/seed5", func(f string, t int) []string {
+		return []string{"z3-new", fmt.Sprintf("-T:%d", t), "smt.random_seed=5", f}
+	}, ""},
+	{"z3-new/seed11", func(f string, t int) []string {
+		return []string{"z3-new", fmt.Sprintf("-T:%d", t), "smt.random_seed=11", "smt.qi.eager_threshold=20", f}
+	}, ""},
 	{"cvc5/enum", func(f string, t int) []string {
 		return []string{"cvc5", fmt.Sprintf("--tlimit=%d", t*1000), "--enum-inst", "--lang=smt2", f}
 	}, ""},
